@@ -29,6 +29,8 @@ def _case(i):
         name, prog = 'tmpl:stack0_data', gen.tmpl_stack0_data(rng)
     elif i % 12 == 9:
         name, prog = 'tmpl:forward_jump', gen.tmpl_forward_jump(rng)
+    elif i % 24 == 11:
+        name, prog = 'tmpl:zoo', gen.tmpl_zoo(rng)
     elif i % 24 == 7:
         name, prog = 'tmpl:big_fraction_output', gen.tmpl_big_fraction_output(rng)
     elif i % 24 == 15:
